@@ -219,3 +219,59 @@ def ser_corr(res, tag="ser"):
             if m != items[c][3]:
                 mism.append(dict(type=C.rust_ty(qs[items[c][0]]), value=res["values"][items[c][0]][items[c][1]][0], model=m, serde_json=items[c][3]))
     return len(items), mism
+
+
+def witnesses(res, qidx, tag="wit", cap=14):
+    """type-directed inhabitants of the REAL declared type of each query (Spec/TsSem.v witnesses on the parsed
+    real name() text, unfolding the parsed real declarations); every witness is also checked by memberb.
+    Returns {query index: [(json text, is_member)]}"""
+    import tsparse
+    qs = res["queries"]
+    if "realname" not in res:
+        real_env(res)
+    parsed = {}
+    for qi in qidx:
+        try:
+            parsed[qi] = tsparse.coq_ty(tsparse.parse_type(res["q"][qi]["name"]))
+        except tsparse.ParseError:
+            pass
+    idx = sorted(parsed)
+    nsh = 12
+    shards = [idx[k::nsh] for k in range(nsh)]
+    files = []
+    for k, sh in enumerate(shards):
+        if not sh:
+            continue
+        terms = ["(let t := %s in map (fun w => bit (memberb E sfuel t w) :: json_text w) (firstn %d (witnesses E 40 t)))" % (parsed[qi], cap) for qi in sh]
+        body = ("From TsRs Require Import Corr.%s Corr.%s Spec.Serde.\n" % (res["envname"], res["realname"]) + CR.HEADER + SEM_HEADER +
+                "Eval vm_compute in concat %s.\n" % coq_list(["(%s ++ [[0]%%N])" % t for t in terms], sep=";\n "))
+        files.append(("%s_%s%d" % (res["envname"], tag, k), body))
+    outs = vlib.coq_eval_many(files, timeout=2400)
+    result = {}
+    for (nm, _), (ok, out), sh in zip(files, outs, [s for s in shards if s]):
+        if not ok:
+            raise vlib.HarnessError("%s.v failed: %s" % (nm, out[-3000:]))
+        vals = vlib.parse_coq_str_list(out.split("=", 1)[1].rsplit(":", 1)[0])
+        cur, k = [], 0
+        for v in vals:
+            if v == "\x00":
+                result[sh[k]] = cur
+                cur, k = [], k + 1
+            else:
+                cur.append((v[1:], v[0] == "1"))
+        if k != len(sh):
+            raise vlib.HarnessError("%s.v: %d witness groups for %d queries" % (nm, k, len(sh)))
+    return result
+
+
+def deserialize(res, items):
+    """items: list of (query index, k, json text) -> {(qi, k): re-serialised json | '\x00ERR'} from the REAL serde_json::from_str::<T>"""
+    import os
+    path = os.path.join(vlib.CACHE, "io", "witnesses_%d.tsv" % os.getpid())
+    os.makedirs(os.path.dirname(path), exist_ok=True)
+    with open(path, "w", encoding="utf-8") as f:
+        for qi, k, text in items:
+            f.write("%d\t%d\t%s\n" % (qi, k, text.replace("\n", " ")))
+    _, _, dd = CR.run_binary(res["exe"], env={"CORPUS_WITNESSES": path})
+    os.remove(path)
+    return dd
